@@ -59,6 +59,9 @@ type seg struct {
 type ReadRec struct {
 	At time.Duration
 	N  int
+	// CallAt: when the Read call was made; Req: the size of the buffer it was given
+	CallAt time.Duration
+	Req    int
 }
 
 // End is one endpoint of a simulated stream (or connected datagram) socket.
@@ -232,11 +235,13 @@ func (e *End) Read(p []byte) (int, error) {
 	s := e.n.S
 	s.Park(e.Name + ".R")
 	first := true
+	var callAt time.Duration
 	for {
 		s.Lock()
 		drain(e.rnotify)
 		if first {
 			first = false
+			callAt = s.Elapsed()
 			e.ReadCalls++
 			if !e.HasFirstRead {
 				e.HasFirstRead = true
@@ -248,7 +253,7 @@ func (e *End) Read(p []byte) (int, error) {
 			if n > 0 {
 				e.BytesRead += n
 				if e.KeepReads || e.n.KeepReads {
-					e.Reads = append(e.Reads, ReadRec{At: s.Elapsed(), N: n})
+					e.Reads = append(e.Reads, ReadRec{At: s.Elapsed(), N: n, CallAt: callAt, Req: len(p)})
 				}
 				poke(e.peer.wnotify)
 			}
